@@ -560,6 +560,36 @@ pub fn c15(tier: &str) -> i32 {
         content_independence_in::<2>(&acc, su, true, 3, &mut content);
     }
     out.set("other_environment_configurations", json!(setups));
+    // batches beyond 1024 / 2048 / 4096 instructions: a few complete generator streams each, the
+    // processing order must be the library shuffle under that very stream
+    let mut huge = Vec::new();
+    for &n in (if t { &[1025usize, 2048, 4097, 9000][..] } else { &[1025usize, 2050, 4100][..] }) {
+        let items: Vec<Item> = (0..n).map(|i| Item { kind: Kind::Limit, asset: i % 2 }).collect();
+        for (multi, seed) in [(false, 1u64), (false, 2), (true, 3)] {
+            acc.execs.fetch_add(1, Ordering::Relaxed);
+            let script: Vec<Ans> = if seed == 2 { vec![Ans::Raw(0); 8] } else { vec![] };
+            let r = if multi { util::subject(|| run_batch::<2>(true, &items, &script, seed)).unwrap_or_else(Err) } else {
+                let items1: Vec<Item> = items.iter().map(|it| Item { kind: it.kind, asset: 0 }).collect();
+                util::subject(|| run_batch::<1>(false, &items1, &script, seed)).unwrap_or_else(Err)
+            };
+            match r {
+                Ok((order, draws, _)) => {
+                    let (lib, lib_draws) = rand_shuffle_order(n, &script, seed);
+                    if order != lib || draws != lib_draws {
+                        let first = order.iter().zip(lib.iter()).position(|(a, b)| a != b).unwrap_or(0);
+                        acc.fail(
+                            "large-batch-not-the-library-shuffle",
+                            format!("a batch of {} instructions: processing order differs from the library shuffle under the same generator stream from position {} on ({} draws vs {})", n, first, draws, lib_draws),
+                            json!({"n": n, "multi": multi, "fallback_seed": seed, "script": script_json(&script)}),
+                        );
+                    }
+                }
+                Err(e) => acc.fail("invalid-processing-positions", e, json!({"n": n, "multi": multi, "fallback_seed": seed})),
+            }
+        }
+        huge.push(json!({"n": n, "streams": 3}));
+    }
+    out.set("huge_batches_exact", json!(huge));
     let mut ms = Vec::new();
     multi_step::<1>(&acc, false, if t { 5 } else { 4 }, if t { 2500 } else { 1300 }, &mut ms);
     multi_step::<2>(&acc, true, if t { 5 } else { 4 }, if t { 2500 } else { 1300 }, &mut ms);
